@@ -39,6 +39,8 @@ import YarlProofs.C06More
   values.  `QsSpec.cut 38 [] s` (C12More.lean) = `s` cut at every '&'; `pctDecodeQs` (Defs.lean) = '+' → space byte,
   well-formed `%XY` → byte, everything else its UTF-8 bytes (a malformed '%' stays '%'); `decodeReplace` =
   `bytes.decode("utf-8", "replace")`.
+  Continued further in C06HeadlineMore4.lean (headline theorems for the proof modules added after the last refresh:
+  C06More3.lean; the GAPS block below cites them).
 -/
 set_option linter.unusedVariables false
 namespace Yarl
@@ -584,6 +586,28 @@ GAPS:
     doubled) and `path` is the old decoded path without ONE trailing slash, "/" and that text; same hypotheses as the
     `parts` theorem.  Remains open: with_suffix (not in the property's list); the side conditions on the OLD path are
     GAPS 9 (discharged for reachable URLs).
+    FURTHER: the remainder "with_suffix" is NOW CLOSED by C06_with_suffix_name_readback,
+    C06_with_suffix_suffix_closed_form, C06_with_suffix_suffix_readback_iff, C06_with_suffix_suffixes_readback,
+    C06_with_suffix_idempotent, C06_with_suffix_total (+ the computed C06_with_suffix_escaped_dot_example,
+    …_empty_escaped_dot_example, …_suffixes_escaped_dot_counterexample, …_suffix_readback_counterexamples,
+    …_not_idempotent_examples, …_total_examples; C06More3.lean), see C06_headline_with_suffix_name_readback,
+    …_suffix_closed_form, …_suffix_readback_iff (+ …_suffix_readback_fails_for), …_suffixes_readback (+
+    …_suffixes_fails_for_escaped_dot), C06_headline_with_suffix_escaped_dot_examples, …_idempotent (+
+    …_idempotent_fails_for), …_total (+ …_total_examples) (C06HeadlineMore4.lean).  Proved, for ANY old URL (no side
+    condition on it) and every `x` that is a Python string without lone surrogates, GIVEN that `with_suffix(x)`
+    succeeds: `name` of the result is `u.name` without `u.suffix` followed by `x` unchanged, all other decoded parts,
+    scheme and authority kept, query / fragment kept or dropped by the flags; `suffix` of the result in closed form (the
+    last dotted piece of `x`, "" when `x` ends in '.'); `suffix == x` IF AND ONLY IF `x` is "." + a non-empty dot-free
+    text, or "" on a raw stem without suffix — so "reads back unchanged" through `suffix` is FALSE for ".tar.gz"
+    (".gz"), ".a." ("") and "" on "a.tar.gz" (".tar"); `suffixes` of the result is the suffixes function of the new
+    decoded name UNDER the side condition `NoEscapedDot` (no "%2E" in the raw stem; implied by "the raw name is the
+    canonical quoting of a text" — names written by the auto-encoding API — and by "no '.' in the decoded stem"); the
+    side condition is NEEDED (`URL("http://h/a%2Eb.c", encoded=True).with_suffix(".d").suffixes == (".d",)`);
+    idempotence for `x` = "." + non-empty dot-free text, FALSE otherwise (instances); and the call (accepted `x`,
+    non-empty raw name) succeeds unless `x == ""` on a raw stem "." / "..", where it raises ValueError.
+    CAVEAT: `u.suffix` is the decoding of the RAW suffix, not the suffix of the decoded name (raw name "a%2Eb": name
+    "a.b", suffix ""); all statements are about that accessor.  `with_suffix` is not in the property's list, so none of
+    the FALSE clauses is a deviation from the property text; none is in KNOWN_FINDINGS.jsonl.
  7. PARTLY CLOSED by C06_with_name_readback_keep (C06More.lean), see C06_headline_with_name_readback_keep: with_name for
     ANY `keep_query` / `keep_fragment`.  Unchanged: with_query: `.str` arguments (a whole query string, where '+'
     and '%XY' are NOT decoded values) are rightly outside; float / bool / None values are C12.
@@ -630,6 +654,32 @@ GAPS:
     host text of `A` (supported ASCII host kinds, as `AuthInput` in GAPS 4); nothing is proved about user / password
     of `build(authority=A)` for an IDN / non-ASCII / IPvFuture host (the proof goes through the shape of the stored
     authority, which Lemmas/Readback2.lean establishes for these host kinds only).
+    SHARPENED (not closed) by C06_hostTextOK_decidable, C06_build_authority_readback_checked,
+    C06_build_authority_host_readback_checked (C06More3.lean), see C06_headline_hostTextOK_decidable,
+    C06_headline_build_authority_readback_checked, C06_headline_build_authority_host_readback_checked
+    (C06HeadlineMore4.lean).  Proved: `HostTextOK h0` is decidable (it IS the Bool `R12a.hostTextOkB h0`), `hwrap` IS
+    `R12a.authWrapB A`, and for every `A` accepted by `split_netloc` the single oracle-free check `R12a.authOkB A` on
+    the TEXT is exactly the two hypotheses; the read-back theorems of GAPS 3 are restated with hypotheses `PyStr A` and
+    `authOkB A = true` only (both closed by `decide` for a concrete `A`: five instances in C06More3.lean), the success
+    of `split_netloc(A)` now being a conclusion, with host / user / password given as oracle-free functions of `A` (the
+    port too when the port text is ASCII).  The check REJECTS "[v1.x]", "[example.com]", an IDN name, "user@:80".
+    STILL OPEN: unchanged in substance — nothing is proved about `build(authority=A)` for a host text outside
+    `HostTextOK` (IDN / non-ASCII, IPvFuture, a name in brackets, no host); the decoded `host` of a name still carries
+    the oracle hypothesis of GAPS 10.
+13. NEW (with C06More3.lean, `with_suffix`).  The statements of GAPS 6 FURTHER are relative to hand-written functions
+    whose reading is trusted: `PathMore.sfx` / `PathMore.sfxs` (C13More.lean; tied to `raw_suffix` / `raw_suffixes` by
+    `rawSuffix_eq` / `rawSuffixes_eq`, and `suffix` / `suffixes` are their element-wise decodings:
+    C06_headline_suffix_is_decoding), `HumanReach.stem` (name minus `sfx`), `R12a.NoEscapedDot` (a Prop, decidable,
+    unfolded in C06More3.lean: every '.'-piece of the raw text decodes to a text without '.'), `R12a.dotted`.  The
+    hypothesis "the call succeeds" is characterised only for an accepted `x` on a non-empty raw name
+    (C06_headline_with_suffix_total); on an empty name or a rejected `x` the call raises (`withSuffix_checks`,
+    C13More.lean; no C06 headline).  `x` with lone surrogates: no statement (the property's exception).
+14. NEW (with C06More3.lean, `build(authority=)`).  `R12a.authHost` / `authUser` / `authPassword` / `authPortText` /
+    `authPort` / `authWrapB` / `authOkB` are hand-written oracle-free re-statements of how `split_netloc` cuts the text;
+    their agreement with `splitNetloc` is PROVED for every successful split (`R12a.splitNetloc_parts`,
+    `R12a.splitNetloc_port` — the port only for an ASCII port text; a non-ASCII digit port goes through the `int()`
+    oracle) and is part of the conclusion of C06_headline_build_authority_readback_checked, so only their reading in
+    the vocabulary section of C06HeadlineMore4.lean is trusted.
 -/
 
 end Yarl
